@@ -137,3 +137,18 @@ impl Hasher {
     ))
   }
 }
+
+#[cfg(feature = "verif")]
+impl Hasher {
+  pub(crate) fn verif_hash_read_io(
+    &mut self,
+    file: &mut dyn BufRead,
+  ) -> io::Result<(Option<Md5Digest>, Bytes)> {
+    self.hash_read_io(file)
+  }
+
+  pub(crate) fn verif_finish(mut self) -> PieceList {
+    self.finish();
+    self.pieces
+  }
+}
